@@ -756,8 +756,9 @@ def step (s : St) (line : String) : St × List String :=
           (do let st ← stateOfV st; let atts ← attempts.mapM attemptOfV; some (st, atts)))
       | "produce-clamp", [.int v] => (s, ["ok " ++ (V.list [.int (produceClamp v).1, .int (produceClamp v).2]).render])
       | "fetch-clamp", [.int v] => (s, ["ok " ++ (V.int (fetchClamp v)).render])
-      | "mon-version", [.list table, .int key, .int headerVersion] =>
-        (s, optRes (fun t => [if Monitor.C04.versionChosenOk t key headerVersion then "ok" else "fail"]) (tableOfV table))
+      | "mon-version", [.list table, .int key, .int headerVersion, magics] =>
+        (s, optRes (fun (p : List ApiVersion × List Int) => [(Monitor.C04.versionVerdict p.1 key headerVersion p.2).name])
+          (do let t ← tableOfV table; let ms ← ints? magics; some (t, ms)))
       | "mon-fallback", [.int headerVersion, magics] =>
         (s, optRes (fun ms => [if Monitor.C04.fallbackOk headerVersion ms then "ok" else "fail"]) (ints? magics))
       | _, _ => (s, ["bad-op"])
